@@ -212,16 +212,18 @@ ALLOWED_AXIOMS = {
 
 # ----------------------------------------------------------------------------- harness
 
-def build_harness():
-    with Lock("harness"):
-        shutil.copy(os.path.join(REPO, "go.sum"), os.path.join(HARNESS, "go.sum"))
-        rc, out = sh(["go", "build", "-tags", "verif", "-o", os.path.join(BIN, "vh"), "./cmd/vh"], cwd=HARNESS, env=goenv(), timeout=1200)
+def build_harness(vh_bin="vh"):
+    """go build -tags verif ./cmd/<vh_bin> against /repo's working tree (replace directive)."""
+    with Lock("harness-" + vh_bin):
+        with Lock("gosum"):
+            shutil.copy(os.path.join(REPO, "go.sum"), os.path.join(HARNESS, "go.sum"))
+        rc, out = sh(["go", "build", "-tags", "verif", "-o", os.path.join(BIN, vh_bin), "./cmd/" + vh_bin], cwd=HARNESS, env=goenv(), timeout=1200)
         return rc, out
 
 
-def run_vh(args, timeout=3000):
+def run_vh(args, timeout=3000, vh_bin="vh"):
     t0 = time.time()
-    rc, out = sh([os.path.join(BIN, "vh")] + [str(a) for a in args], env=goenv(), timeout=timeout)
+    rc, out = sh([os.path.join(BIN, vh_bin)] + [str(a) for a in args], env=goenv(), timeout=timeout)
     return rc, out, time.time() - t0
 
 
@@ -362,7 +364,7 @@ def shrink_list(items, still_fails, max_runs=60):
 # ----------------------------------------------------------------------------- the standard flow
 
 def standard_check(res, vh_cmd, n_cases, prop_files, model_files, theorem_note, trusted, assumptions,
-                   extra_vh_args=(), shrink_key="steps", level="proof", post=None, corpus=True):
+                   extra_vh_args=(), shrink_key="steps", level="proof", post=None, corpus=True, vh_bin="vh"):
     """Proof obligations + correspondence + oracle for one property.
 
     prop_files : theories/... files whose theorems state the property (must build, must be axiom-free)
@@ -388,7 +390,7 @@ def standard_check(res, vh_cmd, n_cases, prop_files, model_files, theorem_note, 
     obligations = len(pa["printed"]) if not broken else len(re.findall(r"Print Assumptions", open(os.path.join(COQ, "theories/Properties/%s.v" % prop)).read()))
     discharged = 0 if broken else len([b for b in pa["printed"]])
 
-    rc, out = build_harness()
+    rc, out = build_harness(vh_bin)
     if rc != 0:
         res.violation("harness-build", "harness does not build against /repo", {"error": out[-3000:],
                       "broken": "the correspondence harness no longer compiles against /repo's working tree"}, found_input=False)
@@ -408,12 +410,12 @@ def standard_check(res, vh_cmd, n_cases, prop_files, model_files, theorem_note, 
             for i, f in enumerate(sorted(os.listdir(cdir))):
                 if f.endswith(".json"):
                     d = os.path.join(work, "corpus%d" % i)
-                    rc, o, _ = run_vh([vh_cmd, "-replay", os.path.join(cdir, f), "-out", d, "-tier", res.tier] + list(extra_vh_args))
+                    rc, o, _ = run_vh([vh_cmd, "-replay", os.path.join(cdir, f), "-out", d, "-tier", res.tier] + list(extra_vh_args), vh_bin=vh_bin)
                     if rc != 0:
                         raise RuntimeError("vh failed on corpus %s:\n%s" % (f, o[-3000:]))
                     dirs.append((d, "corpus/" + f))
         d = os.path.join(work, "gen")
-        rc, o, wall = run_vh([vh_cmd, "-seed", res.seed, "-n", n_cases, "-out", d, "-tier", res.tier] + list(extra_vh_args))
+        rc, o, wall = run_vh([vh_cmd, "-seed", res.seed, "-n", n_cases, "-out", d, "-tier", res.tier] + list(extra_vh_args), vh_bin=vh_bin)
         if rc != 0:
             raise RuntimeError("vh %s failed:\n%s" % (vh_cmd, o[-3000:]))
         dirs.append((d, "generated"))
@@ -450,7 +452,7 @@ def standard_check(res, vh_cmd, n_cases, prop_files, model_files, theorem_note, 
                     continue
                 reported.add(v["case"])
                 case = cases[v["case"]]
-                small = shrink_case(vh_cmd, case, work, shrink_key, want_oracle=True, extra=extra_vh_args)
+                small = shrink_case(vh_cmd, case, work, shrink_key, want_oracle=True, extra=extra_vh_args, vh_bin=vh_bin)
                 res.violation("oracle", v["problem"], {"origin": origin, "problem": v["problem"], "case": small, "original_case": case,
                               "replay_cmd": "bin/vh %s -replay <file with [case]> -out <dir>" % vh_cmd,
                               "theorem": theorem_note})
@@ -459,7 +461,7 @@ def standard_check(res, vh_cmd, n_cases, prop_files, model_files, theorem_note, 
                     continue
                 reported.add(i)
                 case = cases[i]
-                small = shrink_case(vh_cmd, case, work, shrink_key, want_oracle=False, extra=extra_vh_args)
+                small = shrink_case(vh_cmd, case, work, shrink_key, want_oracle=False, extra=extra_vh_args, vh_bin=vh_bin)
                 # is the shrunk case also an oracle violation? (then it is a failing input)
                 res.violation("correspondence", "model and implementation disagree (%s)" % vh_cmd,
                               {"origin": origin, "case": small, "original_case": case,
@@ -490,7 +492,7 @@ def standard_check(res, vh_cmd, n_cases, prop_files, model_files, theorem_note, 
     res.exit()
 
 
-def shrink_case(vh_cmd, case, work, key, want_oracle, extra=()):
+def shrink_case(vh_cmd, case, work, key, want_oracle, extra=(), vh_bin="vh"):
     """Shrink case[key] (a list) while the failure persists on the implementation (and the model)."""
     if not isinstance(case, dict) or key not in case or len(case[key]) <= 1:
         return case
@@ -503,7 +505,7 @@ def shrink_case(vh_cmd, case, work, key, want_oracle, extra=()):
         cand[key] = items
         os.makedirs(d, exist_ok=True)
         json.dump([cand], open(os.path.join(d, "in.json"), "w"))
-        rc, o, _ = run_vh([vh_cmd, "-replay", os.path.join(d, "in.json"), "-out", d] + list(extra), timeout=120)
+        rc, o, _ = run_vh([vh_cmd, "-replay", os.path.join(d, "in.json"), "-out", d] + list(extra), timeout=120, vh_bin=vh_bin)
         if rc != 0:
             return False
         rep = json.load(open(os.path.join(d, "impl.json")))
